@@ -272,7 +272,22 @@ def c03_cases(rng, tier):
         ctx = rng.choice(['top', 'top', 'func', 'block', 'chain'])
         pre = rng.choice(HISTORIES)
         cases.append({'src': prog(pre + wrap_context(body, ctx) + tail), 'kind': 'loops ctx=%s' % ctx})
-    for _ in range(n // 3):
+    for src in function_depth_loop_programs(rng, n // 3):
+        cases.append({'src': src, 'kind': 'loops function-depths'})
+    # stray break / continue
+    for s in [['থামাও;'], ['আবার;'], ['ফাং ফ() {', '    থামাও;', '} ফেরত;', 'লুপ {', '    ফ();', '    থামাও;', '} আবার;'],
+              ['ফাং ফ() {', '    আবার;', '} ফেরত;', 'নাম ক = ০;', 'লুপ {', '    ক = ক + ১;', '    যদি ক > ২ {', '        থামাও;', '    }', '    ফ();', '} আবার;']]:
+        cases.append({'src': prog(['দেখাও "আগে";'] + s + ['দেখাও "পরে";']), 'kind': 'stray'})
+    for src in P2.loop_depth_programs(rng, 60 if tier != 'thorough' else 400):
+        cases.append({'src': src, 'kind': 'loop-depths', 'budget': 60000})
+    return cases
+
+
+def function_depth_loop_programs(rng, n):
+    """a function containing a loop whose body shadows an outer variable, called from several block depths: the loop's
+    recorded scope depth must be the one of THIS entry"""
+    out = []
+    for _ in range(n):
         lim = rng.randint(2, 4)
         body = ['ফাং ঘোর(ক) {', '    নাম বাইরে = ১০০;', '    নাম ই = ০;', '    লুপ {', '        যদি ই >= %s {' % bn(lim), '            থামাও;', '        }', '        ই = ই + ১;',
                 '        _দেখাও বাইরে;', '        নাম বাইরে = ই;', '        যদি ই %s %s {' % (rng.choice(['==', '>', '<']), bn(rng.randint(1, 3))), '            নাম গভীর = ই * ২;',
@@ -284,14 +299,8 @@ def c03_cases(rng, tier):
                 c = rng.choice([['যদি সত্য {'] + ind(c) + ['}'], ['{'] + ind(c) + ['}'], ['যদি মিথ্যা {', '} অথবা {'] + ind(c) + ['}']])
             calls += c
             if rng.random() < 0.5: calls.append('দেখাও গভীর;' if rng.random() < 0.3 else 'দেখাও "মাঝে";')
-        cases.append({'src': prog(body + calls + ['দেখাও "শেষ";']), 'kind': 'loops function-depths'})
-    # stray break / continue
-    for s in [['থামাও;'], ['আবার;'], ['ফাং ফ() {', '    থামাও;', '} ফেরত;', 'লুপ {', '    ফ();', '    থামাও;', '} আবার;'],
-              ['ফাং ফ() {', '    আবার;', '} ফেরত;', 'নাম ক = ০;', 'লুপ {', '    ক = ক + ১;', '    যদি ক > ২ {', '        থামাও;', '    }', '    ফ();', '} আবার;']]:
-        cases.append({'src': prog(['দেখাও "আগে";'] + s + ['দেখাও "পরে";']), 'kind': 'stray'})
-    for src in P2.loop_depth_programs(rng, 60 if tier != 'thorough' else 400):
-        cases.append({'src': src, 'kind': 'loop-depths', 'budget': 60000})
-    return cases
+        out.append(prog(body + calls + ['দেখাও "শেষ";']))
+    return out
 
 
 def c05_cases(rng, tier):
@@ -348,6 +357,8 @@ def c05_cases(rng, tier):
 # ------------------------------------------------------------------------------------------------ C04 scopes
 def c04_cases(rng, tier):
     cases = []
+    for src in function_depth_loop_programs(rng, 40 if tier != 'thorough' else 300):
+        cases.append({'src': src, 'kind': 'scopes function-depths'})
     n = 1500 if tier == 'thorough' else 300
     names = ['ক', 'খ', 'গ']
     for _ in range(n):
@@ -495,7 +506,9 @@ def c17_cases(rng, tier):
         lit = '[' + ', '.join('"%s"' % x for x in l) + ']'
         cases.append({'src': prog(['নাম তা = %s;' % lit, 'নাম তা২ = তা;', 'দেখাও _স্ট্রিং-জয়েন(তা, ",");', 'দেখাও তা;', 'দেখাও _স্ট্রিং-জয়েন(তা২, "-");', 'দেখাও _লিস্ট-লেন(তা);',
                                    'দেখাও _স্ট্রিং-স্প্লিট(_স্ট্রিং-জয়েন(তা, "|"), "|");', 'দেখাও তা২;']), 'kind': 'join-reuse'})
-    for s_, sep in [('ক।', '।'), ('।', '।'), ('ক।।খ', '।।'), ('কখ', 'কখগ'), ('অ', 'অআ'), ('ক খ', ' '), ('এক—দুই', '—'), ('😀a😀', '😀')]:
+    for s_, sep in [('x===>y==>z', '==>'), ('xaaaby', 'aab'), ('aaab', 'aab'), ('aabaab', 'aab'), ('কককখগ', 'ককখ'), ('ababac', 'abac'), ('aaa', 'aa'), ('aaaa', 'aa'), ('abababa', 'aba'),
+                    ('নাম,বয়স,,', ','), (',,', ','), ('a,', ','), ('aaaa', 'a'),
+                    ('ক।', '।'), ('।', '।'), ('ক।।খ', '।।'), ('কখ', 'কখগ'), ('অ', 'অআ'), ('ক খ', ' '), ('এক—দুই', '—'), ('😀a😀', '😀')]:
         cases.append({'src': prog(['নাম ভাগ = _স্ট্রিং-স্প্লিট("%s", "%s");' % (s_, sep), 'দেখাও ভাগ;', 'দেখাও _লিস্ট-লেন(ভাগ);', 'দেখাও _স্ট্রিং-জয়েন(ভাগ, "%s");' % sep]), 'kind': 'split', 's': s_, 'sep': sep})
     for e in ['১', '"a"', 'সত্য', '[১]', '@{}', 'শূ', 'ফ', '_টাইপ(১)']:
         cases.append({'src': prog(['নাম শূ;', 'ফাং ফ() {', '} ফেরত;', 'দেখাও _টাইপ(%s);' % e]), 'kind': 'type'})
@@ -768,6 +781,18 @@ def c15_cases(rng, tier):
                  'মডিউল _টাইপ = "a.pakhi";', 'মডিউল ক = "a.pakhi"; মডিউল ক = "a.pakhi";', 'মডিউল ক = "a.pakhi"; মডিউল খ = "a.pakhi";']:
         cases.append({'src': prog(['দেখাও "আগে";', stmt, 'দেখাও "পরে";']), 'files': [('a.pakhi', 'দেখাও "a";\n'), ('d/b.pakhi', 'দেখাও "b";\n')], 'kind': 'import-forms'})
     cases.append({'src': prog(['মডিউল ক = "a.pakhi";', 'দেখাও "main";']), 'files': [('a.pakhi', 'মডিউল _টাইপ = "a.pakhi";\nদেখাও "a";\n')], 'kind': 'alias-builtin-cycle'})
+    # an import name that is a string prefix of a later one (গ / গণিত, ম / ম২); the later module imports the earlier one's file
+    # again: acyclic.  And cycles among non-root modules only (root -> a -> b -> a), which never return to the root.
+    for a1, a2 in [('গ', 'গণিত'), ('ম', 'ম২'), ('ক', 'কক'), ('গণিত', 'গ')]:
+        cases.append({'src': prog(['মডিউল %s = "util.pakhi";' % a1, 'মডিউল %s = "math.pakhi";' % a2, 'দেখাও "root";', 'দেখাও %s/দ্বিগুণ(৮);' % a2]),
+                      'files': [('util.pakhi', prog(['দেখাও "util";', 'ফাং দুই(ক) {', '    ফেরত ক * ২;', '} ফেরত;'])),
+                                ('math.pakhi', prog(['মডিউল ভিতর = "util.pakhi";', 'দেখাও "math";', 'ফাং দ্বিগুণ(ক) {', '    ফেরত ভিতর/দুই(ক);', '} ফেরত;']))], 'kind': 'alias-prefix'})
+    for first in (True, False):
+        pre = [] if first else ['দেখাও "আগে";']
+        cases.append({'src': prog(['মডিউল ক = "a.pakhi";', 'দেখাও "main";']),
+                      'files': [('a.pakhi', prog(pre + ['মডিউল খ = "b.pakhi";', 'দেখাও "a";'])), ('b.pakhi', prog(pre + ['মডিউল গ = "a.pakhi";', 'দেখাও "b";']))], 'kind': 'inner-cycle'})
+        cases.append({'src': prog(['মডিউল ক = "a.pakhi";', 'দেখাও "main";']),
+                      'files': [('a.pakhi', prog(pre + ['মডিউল খ = "b.pakhi";', 'দেখাও "a";'])), ('b.pakhi', prog(pre + ['মডিউল গ = "c.pakhi";', 'দেখাও "b";'])), ('c.pakhi', prog(pre + ['মডিউল ঘ = "b.pakhi";', 'দেখাও "c";']))], 'kind': 'inner-cycle'})
     return cases
 
 
@@ -923,5 +948,19 @@ def c20_cases(rng, tier):
                 p = rng.choice(cand); lines.append('দেখাও _ডিলিট-ডাইরেক্টরি("%s");' % p)
                 dirs = set(d for d in dirs if d != p and not d.startswith(p + '/'))
                 files = {f: c for f, c in files.items() if not f.startswith(p + '/')}
-        if lines: cases.append({'stmts': lines, 'kind': 'fs-valid' if valid else 'fs-faulty'})
+        if lines:
+            case = {'stmts': lines, 'kind': 'fs-valid' if valid else 'fs-faulty'}
+            if valid:
+                # the same operations with some paths spelled ./p : one file has one content whatever the spelling
+                import re as _re
+                case['respelled'] = [_re.sub(r'\("([^"]*)"', lambda mo: '("%s%s"' % (rng.choice(['', './', './', './/']) if mo.group(1) else '', mo.group(1)), l, count=1) for l in lines]
+            cases.append(case)
+    # read, change through another spelling of the same path, read again
+    for pth in ['f.txt', 'নথি.txt', 'd/g.txt']:
+        for alt in ['./', './/', './././']:
+            pre = ['দেখাও _নতুন-ডাইরেক্টরি("d");'] if '/' in pth else []
+            def seq(a, b):
+                return pre + ['দেখাও _রাইট-ফাইল("%s", "এক");' % a, 'দেখাও _রিড-ফাইল("%s");' % a, 'দেখাও _রাইট-ফাইল("%s", "দুই");' % b, 'দেখাও _রিড-ফাইল("%s");' % a, 'দেখাও _রিড-ফাইল("%s");' % b,
+                              'দেখাও _রাইট-ফাইল("%s", "তিন");' % a, 'দেখাও _রিড-ফাইল("%s");' % b, 'দেখাও _ডিলিট-ফাইল("%s");' % b, 'দেখাও "মুছে ফেলা হয়েছে";', 'দেখাও _রিড-ফাইল("%s");' % a, 'দেখাও "এখানে নয়";']
+            cases.append({'stmts': seq(pth, pth), 'kind': 'fs-valid', 'respelled': seq(pth, alt + pth)})
     return cases
